@@ -16,6 +16,8 @@ def run(chk):
         n = rng.choice([1, 2, 3, 4, 5])
         m = 10 if n == 1 else rng.choice([1, 2, 3, 5, 10, 50 // n])
         lo, hi = H.random_box(rng, n)
+        if _ % 11 == 5:      # a box below the origin whose upper bounds are all exactly 0
+            lo, hi = [-float(rng.choice([1, 3, 5])) for _k in range(n)], [0.0] * n
         x = rng.choice(evo_corr.edge_xs(rng, n, m) + [rng.random()] * 4)
         y = [a + (b - a) * rng.random() for a, b in zip(lo, hi)]
         if _ % 3 == 0:      # points on the faces, edges and corners of the box
